@@ -114,7 +114,7 @@ impl Dictionary for MergedDictionary {
 
     fn contains_exact_word_str(&self, word: &str) -> bool {
         let chars: CharString = word.chars().collect();
-        self.contains_word(&chars)
+        self.contains_exact_word(&chars)
     }
 
     fn get_word_metadata_str(&self, word: &str) -> Option<&WordMetadata> {
